@@ -435,7 +435,7 @@ def activity(isotope, mass, env, exposure, rest_times):
             # Column S: resulting product (1/h)
             product_2n = lam if ai.reaction == '2n' else 0
             # Column T: activity if 2n mode
-            activity = root*lam*(parent_activity-parent_lam)*(
+            activity = root*lam*(env.fluence*1e-24*3600*effectiveXS)*(
                 (exp(-lam_2n*exposure)
                  / ((parent_activity-lam_2n)*(product_2n-lam_2n)))
                 + (exp(-parent_activity*exposure)
